@@ -8,7 +8,7 @@ caller supplies an idiom handler.
 import ast
 from fractions import Fraction
 from .terms import RF, lift, abs_, sign_, minmax, Unsupported, show
-from .guards import (A, Not, And, Or, Ctx, f_cmp, f_zero, f_pos, f_sign_eq, ev, atoms_of, show_f)
+from .guards import (A, Not, And, Or, Ctx, f_cmp, f_zero, f_pos, f_sign_eq, ev, atoms_of, show_f, literals)
 
 
 class Sym:
@@ -48,7 +48,7 @@ class DictV:
     __slots__ = ("items",)
 
     def __init__(self, items):
-        self.items = list(items)  # [(key value, value)]
+        self.items = sorted(items, key=lambda kv: repr(kv[0]))  # [(key value, value)], canonical order
 
     def get(self, k):
         for kk, vv in self.items:
@@ -341,6 +341,13 @@ class Summarizer:
         if isinstance(n, ast.If):
             f = self.cond(n.test, st)
             outs = []
+            if f is not True and f is not False:
+                lits = {}
+                for g in st.guards:
+                    literals(g, True, lits)
+                known = ev(f, lits)
+                if known is not None:
+                    f = known
             if f is True:
                 return self.block(n.body, st)
             if f is False:
@@ -387,9 +394,16 @@ class Summarizer:
             elif isinstance(v, ListV):
                 items = v.items
             if items is None or len(items) != len(t.elts):
-                items = [Sym(("unpack", vkey(v), i)) for i in range(len(t.elts))]
+                items = [Sym(("sub", vkey(v), lift(i))) for i in range(len(t.elts))]
             for tt, vv in zip(t.elts, items):
                 self.assign(tt, vv, st, line)
+            return
+        if isinstance(t, ast.Subscript) and isinstance(t.value, ast.Name) and isinstance(st.env.get(t.value.id), DictV) \
+                and not isinstance(t.slice, ast.Slice):
+            # mutation of a local dict literal: functional update of the environment
+            d = st.env[t.value.id]
+            k = vkey(self.expr(t.slice, st))
+            st.env[t.value.id] = DictV([(kk, vv) for kk, vv in d.items if kk != k] + [(k, v)])
             return
         if isinstance(t, (ast.Subscript, ast.Attribute)):
             st.events.append(("store", self.target_key(t, st), v, line))
